@@ -49,6 +49,13 @@ class Tup:
     elts: tuple
 
 
+@dataclass(frozen=True)
+class Obj:
+    """A tracked-class instance built in the analysed function (identity = construction site)."""
+    cls: str
+    site: int
+
+
 @dataclass
 class Event:
     func: str  # qualname of the function whose body contains the node
@@ -77,7 +84,7 @@ def join_elem(vals, where: str = "") -> object:
             v = join_elem(v.elts, where)
         if isinstance(v, Err):
             return v
-        if isinstance(v, Bool) or v == N or v is None:
+        if isinstance(v, (Bool, Obj)) or v == N or v is None:
             continue
         if v == TOP:
             out = TOP if not isinstance(out, Err) else out
@@ -132,10 +139,12 @@ class Contract:
     """Layout contract of a function: `result(flags)` -> expected layout of the (every element of the) result
     given the values of the callee's own flag parameters (None when a needed flag is unknown)."""
 
-    def __init__(self, flag_params: list[str], result: Callable[[dict], object], self_flags: list[str] = ()):
+    def __init__(self, flag_params: list[str], result: Callable[[dict], object], self_flags: list[str] = (),
+                 requires: Optional[dict[str, Callable[[dict], object]]] = None):
         self.flag_params = list(flag_params)
         self.self_flags = list(self_flags)
         self.result = result
+        self.requires = requires or {}  # parameter -> layout the argument must have
 
 
 class Interp:
@@ -148,6 +157,10 @@ class Interp:
         self.events: list[Event] = []
         self.assumed: list[tuple[str, ast.AST, str]] = []
         self._memo: dict = {}
+        self.tracked: dict[str, ClassInfo] = {}  # class name -> ClassInfo whose constructions are recorded
+
+    def track(self, cls: ClassInfo) -> None:
+        self.tracked[cls.name] = cls
 
     # -------------------------------------------------------------------------------------------- entry
     def run(self, f: FuncInfo, env: dict, self_flags: Optional[dict[str, bool]] = None, use_contract_for_self=False):
@@ -175,6 +188,15 @@ class Interp:
                 flags[p] = self_flags.get(p)
             if any(v is None for v in flags.values()):
                 return TOP
+            for p, fn in con.requires.items():
+                got = args.get(p, N)
+                got = _element(got) if isinstance(got, Tup) else got
+                want = fn(flags)
+                if isinstance(got, Err):
+                    return got
+                if is_layout(got) and got != want:
+                    return Err("callee-precondition", f"{callee.short} expects `{p}` in {want} layout but is handed a "
+                               f"{got} array", site)
             return con.result(flags)
         if depth >= self.max_depth:
             return TOP
@@ -228,6 +250,11 @@ class _Frame:
         if isinstance(st, ast.Return):
             v = self.ev(st.value) if st.value is not None else N
             self.returns.append((st, v))
+            for x in flatten(v):
+                if isinstance(x, Obj):
+                    for e in self.it.events:
+                        if e.op == "construct" and id(e.node) == x.site:
+                            e.extra["returned"] = True
             return True
         if isinstance(st, ast.Raise):
             return True
@@ -529,10 +556,33 @@ class _Frame:
         # ---- transitions
         if name in ("fftshift", "ifftshift"):
             return self._shift(call, name)
+        # ---- construction of a tracked class / methods on such an object
+        if name in self.it.tracked or (full.endswith(".__class__") and self.f.cls is not None
+                                       and self.f.cls.name in self.it.tracked):
+            k = self.it.tracked[name] if name in self.it.tracked else self.it.tracked[self.f.cls.name]
+            init = k.find_method("__init__")
+            params = init.positional_params[1:] if init is not None else []
+            bound = dict(zip(params, argv))
+            bound.update(kwv)
+            star = any(kk.arg is None for kk in call.keywords)
+            for p_, d_ in (init.defaults().items() if init is not None else ()):
+                if p_ not in bound and not star and isinstance(d_, ast.Constant) and isinstance(d_.value, bool):
+                    bound[p_] = Bool(d_.value)
+            self.it.events.append(Event(self.f.qualname, call, "construct", bound.get("array", N), None,
+                                        extra={"class": k.name, "args": bound, "star": star, "returned": False,
+                                               "flags": dict(self.self_flags)}))
+            return Obj(k.name, id(call))
+        if isinstance(call.func, ast.Attribute):
+            recv0 = self.ev(call.func.value)
+            if isinstance(recv0, Obj) and recv0.cls in self.it.tracked:
+                m = self.it.tracked[recv0.cls].find_method(call.func.attr)
+                ann = ast.unparse(m.node.returns) if m is not None and m.node.returns is not None else ""
+                return recv0 if (recv0.cls in ann and "Indexed" not in ann) or "Self" in ann else N
         # ---- package functions with a contract / evaluated recursively (before the generic tables, so that
         #      e.g. abtem's own `spatial_frequencies` is analysed rather than assumed)
         callee, bound = self.resolve_call(call, argv, kwv)
-        if callee is not None and callee.name not in FORWARD_FFT | INVERSE_FFT and callee.name != "fft_crop":
+        if callee is not None and callee.name not in FORWARD_FFT | INVERSE_FFT | ELEMENTWISE | NEUTRAL_RESULT \
+                and callee.name != "fft_crop":
             return self.it.call_function(callee, bound, self.self_flags, self.depth, w)
         # ---- primitives
         if name in SOURCES_FFT:
@@ -563,7 +613,10 @@ class _Frame:
             return out
         # ---- map_blocks / map_overlap handled in resolve_call; generic tables
         if name in NEUTRAL_RESULT:
-            errs = [v for v in argv + list(kwv.values()) if isinstance(v, Err)]
+            vals = argv + list(kwv.values())
+            if isinstance(call.func, ast.Attribute) and (dotted(call.func.value) or "?").split(".")[0] not in ARRAY_MODULES:
+                vals = [self.ev(call.func.value)] + vals  # method form: (a * b).sum(...)
+            errs = [x for v in vals for x in flatten(v) if isinstance(x, Err)]
             return errs[0] if errs else N
         if name in ELEMENTWISE:
             operands = list(argv) + [v for k, v in kwv.items() if k not in ("dtype", "axis", "axes", "out", "shape")]
@@ -656,7 +709,7 @@ def _element(v):
         for x in v.elts[1:]:
             r = join_merge(r, x)
         return _element(r) if isinstance(r, Tup) else r
-    if isinstance(v, Bool):
+    if isinstance(v, (Bool, Obj)):
         return N
     return v
 
@@ -782,10 +835,13 @@ def check_spec(ctx, rule: str, it: Interp, spec: Spec) -> None:
             ctx.ok(rule, construct, f.where, f"{spec.label or f.short} under {tag}: " + (", ".join(what) or
                                                                                          "no layout conflict"))
     # shift sites: axes
-    for nid, lst in site_results.items():
+    counters: dict[str, int] = {}
+    for nid, lst in sorted(site_results.items(), key=lambda kv: getattr(kv[1][0][0].node, "lineno", 0)):
         e0 = lst[0][0]
         if e0.op not in ("fftshift", "ifftshift") or spec.batched is None:
             continue
+        counters[e0.op] = counters.get(e0.op, 0) + 1
+        ordinal = counters[e0.op]
         axes = e0.axes
         if spec.batched:
             good = isinstance(axes, (tuple, list)) and sorted(axes) == [-2, -1]
@@ -794,7 +850,7 @@ def check_spec(ctx, rule: str, it: Interp, spec: Spec) -> None:
             good = axes is None or (isinstance(axes, (tuple, list)) and sorted(a % 2 for a in axes) == [0, 1]
                                     and len(axes) == 2) or (isinstance(axes, (tuple, list)) and len(axes) == 1)
             want = "all axes of the 2-D mask / the single axis of a coordinate vector"
-        ctx.check(good, rule, f"{f.qualname}:{e0.op}-axes", f"{f.module.relpath}:{getattr(e0.node, 'lineno', 0)}",
+        ctx.check(good, rule, f"{f.qualname}:{e0.op}-axes#{ordinal}", f"{f.module.relpath}:{getattr(e0.node, 'lineno', 0)}",
                   f"{e0.op} over axes {axes if axes is not None else 'all'}",
                   f"{e0.op} runs over axes {axes if axes is not None else 'all'}; required: {want}",
                   key_detail="axes")
@@ -822,3 +878,61 @@ def check_fft_crop_convention(ctx, rule: str, repo: Repo) -> None:
                             "slices: the FFT_ORDER requirement of fft_crop in the R-SHIFT primitive table is unfounded")
     ctx.ok(rule, f"{f.qualname}:keeps-both-ends", f.where,
            f"masks keep {heads} head and {tails} tail slices: fft_crop keeps the low frequencies of an FFT_ORDER array")
+
+
+def check_constructions(ctx, rule: str, it: Interp, f: FuncInfo, flags: list[str], inputs: Callable[[dict], dict],
+                        cls_name: str, flag_param: str = "fftshift") -> int:
+    """Every `<cls_name>(array, ..., fftshift=E)` built in f and handed back to the caller: the array must be
+    CENTERED iff E is true.  Objects that do not leave the function (e.g. only `.show()`n) are informational."""
+    n = 0
+    per_site: dict[int, list] = {}
+    for val in valuations(flags):
+        it.events.clear()
+        env = inputs(val)
+        self_flags = {k: v for k, v in val.items() if k.startswith("self.")}
+        for k, v in val.items():
+            if not k.startswith("self.") and k in f.params:
+                env[k] = Bool(v)
+        it.run(f, env, self_flags)
+        for e in it.events:
+            if e.op == "construct" and e.func == f.qualname and e.extra["class"] == cls_name:
+                per_site.setdefault(id(e.node), []).append((val, e))
+    if not per_site:
+        raise AnalysisError(f"{f.qualname}: no {cls_name}(...) construction reached")
+    for k, (site, lst) in enumerate(sorted(per_site.items(), key=lambda kv: getattr(kv[1][0][1].node, "lineno", 0))):
+        node = lst[0][1].node
+        where = f"{f.module.relpath}:{getattr(node, 'lineno', 0)}"
+        suffix = f"#{k + 1}" if len(per_site) > 1 else ""
+        for val, e in lst:
+            tag = fmt_val(val)
+            construct = f"{f.qualname}:{cls_name}(){suffix}[{tag}]"
+            arr = e.inp
+            flagv = e.extra["args"].get(flag_param)
+            n += 1
+            if e.extra["star"] and flagv is None:
+                ctx.info(rule, construct, where, "flag passed through **kwargs: not decided here")
+                continue
+            if isinstance(arr, Err):
+                ctx.violation(rule, construct, where, f"array handed to {cls_name}: {arr.msg} (at {arr.where})",
+                              key_detail=arr.kind)
+                continue
+            if not is_layout(arr):
+                ctx.info(rule, construct, where, f"array layout not produced in this function ({arr}); the flag is "
+                                                 "the caller's responsibility")
+                continue
+            if not isinstance(flagv, Bool):
+                raise AnalysisError(f"{f.qualname}: cannot evaluate the {flag_param} flag given to {cls_name}() "
+                                    f"under {tag}")
+            good = arr == flag_layout(flagv.value)
+            if not e.extra["returned"]:
+                ctx.info(rule, construct, where, f"{cls_name} with a {arr} array and {flag_param}={flagv.value} is "
+                                                 "built for local use only (not returned)"
+                         + ("" if good else "; flag and layout disagree but no flag-dependent method is reachable"))
+                continue
+            ctx.check(good, rule, construct, where,
+                      f"{arr} array with {flag_param}={flagv.value}",
+                      f"a {arr} array is wrapped in {cls_name}(..., {flag_param}={flagv.value}), which declares it "
+                      f"{flag_layout(flagv.value)}: every flag-dependent method of the result (block_direct/bandlimit, "
+                      "integrate_radial, polar_binning, center_of_mass, angular_coordinates, azimuthal_average) then "
+                      "addresses the wrong pixels", key_detail="flag")
+    return n
